@@ -1028,7 +1028,7 @@ class FlowGen:
         args = r.sample(['p', 'q', 'a'], r.choice([0, 1, 1, 2]))
         self.pool = locals_ + args
         self.profiles = {v: self.profile() for v in self.pool}
-        self.fnvars = {v for v in self.pool if 'callee' in self.profiles[v]}
+        self.fnvars = [v for v in self.pool if 'callee' in self.profiles[v]]     # a list: iteration order must not depend on hashing
         body = []
         for v in locals_:
             if r.random() < 0.7:     # most locals are bound before anything reads them; the others are bound later / in a loop
@@ -1122,7 +1122,7 @@ HOST_WORDS = ['keys', 'get', 'items', 'values', 'pop', 'update', 'setdefault', '
               '__class__', '__dict__', '__len__', '__contains__', '__getitem__', '__init__', '__iter__', '__hash__', '__eq__',
               'self', 'None', 'True', 'False', 'true', 'false', 'null', 'if', 'NaN', 'Infinity', 'undefined', 'constructor',
               'prototype', '__proto__', 'toString', 'hasOwnProperty', 'length', 'script', 'statement', 'statements0', 'globals',
-              'options', 'locals', 'systemLog', 'systemGlobalGet']
+              'options', 'locals']
 ODD_WORDS = ['', ' ', '  ', '\t', '_', '__', '0', '1', '-1', '1.5', '1e3', '00', 'a b', ' a', 'a ', 'a\nb', '.', '..', '/', '\\', "'", 'a"b', '#', ':',
              '{0}', '{name}', '%s', '%(name)s', '$1', '(index 0)', 'index 3)', 'Unused variable', 'Empty script', 'in function',
              'a' * 300, 'expr' * 64, 'x' * 5000, '_' * 257,
@@ -1139,7 +1139,11 @@ def hostile_names():
             core += [w + 'Loop', 'sub' + w + 'ion', 'my_' + w, w.upper(), w.capitalize() + '2', w + w]
     seen = set()
     core = [w for w in core if not (w in seen or seen.add(w))]
-    rest = [w for w in HOST_WORDS + ODD_WORDS if not (w in seen or seen.add(w))]
+    # (no library function names: a user function that takes the name of the logging function it calls recurses, and the logged
+    #  text doubles on every level)
+    lib = fw.impl()['library'].SCRIPT_FUNCTIONS
+    core = [w for w in core if w not in lib]
+    rest = [w for w in HOST_WORDS + ODD_WORDS if w not in lib and not (w in seen or seen.add(w))]
     return core, rest
 
 
